@@ -64,6 +64,84 @@ def list_contracts(path):
     ASSUMED.extend(f"{S.REG.contracts[k].target}: {S.REG.contracts[k].options['assumed']}" for k in S.REG.order if S.REG.contracts[k].options.get("assumed"))
     for p_ in sorted({l["prop"] for l in S.REG.lemmas}):
         out.append(("@lemmas:" + p_, p_))
+    for k in S.REG.order:
+        SCANNED.extend(scan_contract_assumptions(S.REG.contracts[k]))
+    for cls, d in S.REG.config.items():
+        for lbl, ex in d.items():
+            SCANNED.append(f"{cls}: configuration assumed on entry to every method under contract [{lbl}]: {ex}")
+    return out
+
+
+SCANNED = []
+_TOTAL = None
+
+
+def proved_total():
+    """repository functions that have their own `raises` obligation in some contract file: {Class.method: property}"""
+    global _TOTAL
+    if _TOTAL is None:
+        import glob
+        from pyvc import spec as S
+        from pyvc.verify import load_contract_module
+        keep = (S.REG.shapes, S.REG.invariants, S.REG.config, S.REG.contracts, S.REG.constructors, S.REG.externals, S.REG.lemmas, S.REG.order)
+        _TOTAL = {}
+        for f in sorted(glob.glob(os.path.join(ROOT, "contracts", "C*.py"))):
+            try:
+                S.REG.clear()
+                load_contract_module(f)
+                for k in S.REG.order:
+                    c = S.REG.contracts[k]
+                    if c.raises is not None and not c.options.get("assumed"):
+                        _TOTAL.setdefault(c.target.split("::")[-1], c.prop)
+            except Exception:      # noqa
+                pass
+        S.REG.clear()
+        (S.REG.shapes, S.REG.invariants, S.REG.config, S.REG.contracts, S.REG.constructors, S.REG.externals, S.REG.lemmas, S.REG.order) = keep
+    return _TOTAL
+
+
+def scan_contract_assumptions(c):
+    """mechanical scan of one contract for everything that is assumed rather than proved (the evidence lists each): preconditions, facts assumed
+    per loop iteration / per list element, collaborators whose behaviour is restricted, engine options that abstract"""
+    t = c.target.split("::")[-1] + (f"#{c.variant}" if getattr(c, "variant", None) else "")
+    out = []
+    for r in c.requires:
+        out.append(f"{t}: precondition (assumed at entry; an obligation only where a caller under contract uses this contract): {r}")
+    for hdr, sp in c.loops.items():
+        for f in sp.get("assume_at_iter", []):
+            out.append(f"{t}: assumed at every iteration of `{hdr}`: {f}")
+        if sp.get("instances"):
+            out.append(f"{t}: loop `{hdr}`: invariants instantiated for {sp['instances']} (sound for ghost parameters no precondition constrains)")
+    for cls, facts in c.elem_facts.items():
+        for f in facts:
+            out.append(f"{t}: assumed for every element of class {cls} of the input lists: {f}")
+    for cls, ax in c.counter_axioms if isinstance(c.counter_axioms, list) else []:
+        out.append(f"{t}: counter axiom for lists of {cls}: {ax}")
+    for name, cb in c.callbacks.items():
+        if not isinstance(cb, dict):
+            continue
+        bits = []
+        if "raises" in cb and tuple(cb["raises"]) == ():
+            bits.append("never raises")
+        elif "raises" in cb:
+            bits.append("raises only " + "/".join(cb["raises"]))
+        if cb.get("function"):
+            bits.append(f"is the deterministic function {cb['function']} of its arguments")
+        if cb.get("partial"):
+            bits.append(f"fails only with {cb['partial']}, decided by a predicate of its arguments")
+        if bits:
+            back = ""
+            if "never raises" in bits or any(b.startswith("raises only") for b in bits):
+                import re as _re
+                if _re.match(r"^[A-Z]\w+\.\w+$", name):
+                    pt = proved_total().get(name)
+                    back = f" -- the exception clause is that function's own obligation under {pt}" if pt else " -- NOT an obligation anywhere (assumed)"
+            out.append(f"{t}: collaborator {name} is havocked and assumed: " + "; ".join(bits) + back)
+    for o in ("opaque_ctor", "opaque_any_methods", "div", "unconfirmed"):
+        if c.options.get(o):
+            out.append(f"{t}: engine option {o}={c.options[o]!r}")
+    if c.pre_state:
+        out.append(f"{t}: pre-state shaping {c.pre_state!r}")
     return out
 
 
@@ -384,7 +462,8 @@ def main(argv=None):
         "exhaustive": False,
     }
     ev = {"property_id": pid, "tier": tier, "seed": seed, "level": ev_level, "coverage": cov,
-          "assumptions": COMMON_ASSUMPTIONS + P.get("assumptions", []) + [f"ASSUMED CONTRACT (used at call sites, not verified): {a}" for a in sorted(set(ASSUMED))], "wall_s": round(wall, 2), "violations": len(violations)}
+          "assumptions": COMMON_ASSUMPTIONS + P.get("assumptions", []) + [f"ASSUMED CONTRACT (used at call sites, not verified): {a}" for a in sorted(set(ASSUMED))]
+          + [f"SCAN: {a}"[:400] for a in sorted(set(SCANNED))], "wall_s": round(wall, 2), "violations": len(violations)}
     evdir = os.environ.get("VERIF_EVIDENCE_DIR") or os.path.join(ROOT, "evidence")    # experiments on changed trees write elsewhere
     os.makedirs(evdir, exist_ok=True)
     with open(os.path.join(evdir, f"{pid}.json"), "w") as f:
